@@ -724,7 +724,7 @@ func failedReadsThenValid(res *vlib.Result, root *vlib.Rand) {
 		p.ref = rs[0]
 	}
 	forms := []string{"chunked-100001", "chunked-1MiB", "content-length-100001", "shorter-than-announced", "shorter-than-announced-half-close", "cut-inside-chunk", "chunked-100000-control"}
-	rounds := vlib.Scale(14, 140)
+	rounds := vlib.Scale(21, 140) // quick: 18 rounds x 8 failing reads (a resource lost per failed read shows after some hundred of them)
 	for i := 0; i < rounds; i++ {
 		form := forms[i%len(forms)]
 		ep := []string{"/proxy", "/client", "/answer"}[(i/len(forms))%3]
